@@ -231,3 +231,53 @@ func (c *Ctx) heldOK(fn *ssa.Function, targets []ssa.Instruction, mutexPat strin
 	}
 	return true
 }
+
+// ReentrantLocks: sync.RWMutex is not re-entrant — a goroutine that holds the read lock and asks for
+// it again deadlocks as soon as a writer is queued in between. For the methods of one receiver type
+// (key prefix typePrefix, e.g. "isaac/states.(*States).") and one mutex field: no method calls, on
+// its own receiver, another method of the type that acquires the mutex while it holds it itself.
+// Direct acquisitions only (one call level), resolved callees only.
+func (c *Ctx) ReentrantLocks(typePrefix, recv, field string, floor int) {
+	mutex := "&" + recv + "." + field
+	acquires := map[*ssa.Function]bool{}
+	fns := c.FuncsWithPrefix(typePrefix)
+	for _, fn := range fns {
+		if fn.Parent() != nil {
+			continue
+		}
+		for _, in := range allInstrs(fn) {
+			cc := callCommon(in)
+			if cc == nil || len(cc.Args) == 0 {
+				continue
+			}
+			if _, isLock := lockOps[CalleeFullName(cc)]; isLock && lockOps[CalleeFullName(cc)] > 0 && c.D(cc.Args[0]) == mutex {
+				acquires[fn] = true
+			}
+		}
+	}
+	n := 0
+	for _, fn := range fns {
+		if fn.Parent() != nil {
+			continue
+		}
+		var st map[ssa.Instruction]lockState
+		for _, in := range allInstrs(fn) {
+			cc := callCommon(in)
+			if cc == nil || cc.IsInvoke() {
+				continue
+			}
+			cal := CalleeOf(cc)
+			if cal == nil || !acquires[cal] || len(cc.Args) == 0 || c.D(cc.Args[0]) != recv {
+				continue
+			}
+			n++
+			if st == nil {
+				st = c.LockStates(fn, nil)
+			}
+			held := st[in][mutex] > 0
+			c.Report(fn, "no call of "+strings.TrimPrefix(c.FuncKey(cal), typePrefix)+"() (which locks "+field+") while "+field+" is held", in.Pos(), !held,
+				"sync.RWMutex is not re-entrant: a second RLock behind a queued writer never returns")
+		}
+	}
+	c.Floor(nil, "calls of "+field+"-acquiring methods on the own receiver", n, floor)
+}
